@@ -531,7 +531,7 @@ fn exec_t<T: Sc, F: Factory<T>>(sc: &Scenario) -> RunReport {
             Ok(v) => {
                 rep.executions += 1;
                 rep.events += v.log.len() as u64;
-                compare(sc, &mut rep, &a, &v, true, "SCHEDULE_DEPENDENCE", &format!("pool{}-vs-pool{}", sc.sched.pool, s.pool), nrows, &world);
+                compare(sc, &mut rep, &a, &v, true, "SCHEDULE_DEPENDENCE", if s.pool == 1 { "schedule-vs-1-thread-pool" } else { "schedule-vs-schedule" }, nrows, &world);
                 concurrent_rule(sc, &mut rep, &v, "alternative-schedule");
                 rep.probe_n("sched_joins", v.stats.joins);
                 rep.probe_n("sched_inline", v.stats.inline);
